@@ -208,7 +208,7 @@ def run(ctx):
                    "wrapper without grid argument builds the inner problem on that interval (ScaledAsset: ValueError 'Length of price array "
                    "must be equal to length of time grid'; 72 steps outside, 24 inside)" % (
                        ci.name, w_attr, (st_m.qualname if st_m is not None else "set_timegrid")), node=ci.node)
-    ctx.require(n_w >= 2, "fewer than 2 wrapper classes found")
+    ctx.require(n_w >= 2, "fewer than 2 wrapper classes found", rules=['C14.h'])
 
     # ================================================================= C15.k the window handed to an interval
     calls = [c for s0 in au.walk_stmts(main.body) for c in au.walk_own(s0) if isinstance(c, ast.Call) and au.method_name(c) == "setup_optim_problem"]
